@@ -1366,7 +1366,6 @@ func ruleT7e(c *Ctx) *RuleResult {
 	return r
 }
 
-
 // variadicArgs returns the values packed into the slice that go/ssa builds for a variadic call
 // (`new [n]any; &t[k] = make interface <- x; slice t[:]`), in order, with the interface conversion removed.
 func variadicArgs(v ssa.Value) []ssa.Value {
